@@ -6,6 +6,7 @@ pub mod dequant;
 pub mod idct;
 pub mod inter;
 pub mod intra;
+pub mod refgraph;
 pub mod deblock;
 pub mod yuv;
 
@@ -19,6 +20,7 @@ pub fn run(id: &str, tier: Tier) -> Option<Report> {
         "C12" => inter::run_c12(tier),
         "C10" => idct::run(tier),
         "C11" => dequant::run(tier),
+        "C04" => refgraph::run(tier),
         "C07" => yuv::run_c07(tier),
         "C08" => yuv::run_c08(tier),
         _ => return None,
